@@ -450,6 +450,14 @@ pub mod stubs {
 			bitmap_add(b, x);
 		}
 	}
+	/// the C entry point behind `impl Extend<u32> for Bitmap` (and therefore `collect::<Bitmap>()`)
+	pub unsafe extern "C" fn ffi_add_bulk(r: *mut croaring_sys::roaring_bitmap_t, _ctx: *mut croaring_sys::roaring_bulk_context_t, val: u32) {
+		kani::assume(val < 64);
+		let m: &mut BmMirror = &mut *(r as *mut BmMirror);
+		let v = (m.lo as u64 | (m.hi as u64) << 32) | 1u64 << val;
+		m.lo = v as u32;
+		m.hi = (v >> 32) as u32;
+	}
 	/// harness-side access to the modelled set
 	pub fn bitmap_bits(b: &croaring::Bitmap) -> u64 {
 		bm(b)
@@ -585,6 +593,11 @@ macro_rules! proof {
 			#[cfg_attr(kani, kani::stub(croaring::bitmap::BitmapCursor::move_next, crate::env::stubs::cursor_move_next))]
 		] $($rest)* }
 	};
+	( @acc [bulk, $($g:ident,)*] [$($a:tt)*] $($rest:tt)* ) => {
+		$crate::proof! { @acc [$($g,)*] [$($a)*
+			#[cfg_attr(kani, kani::stub(croaring_sys::roaring_bitmap_add_bulk, crate::env::stubs::ffi_add_bulk))]
+		] $($rest)* }
+	};
 	( @acc [alloc, $($g:ident,)*] [$($a:tt)*] $($rest:tt)* ) => {
 		$crate::proof! { @acc [$($g,)*] [$($a)*
 			#[cfg_attr(kani, kani::stub(alloc::alloc::alloc, crate::env::stubs::alloc_rec))]
@@ -679,5 +692,7 @@ macro_rules! base_uses {
 		use ::grin_util;
 		#[allow(unused_imports)]
 		use ::croaring;
+		#[allow(unused_imports)]
+		use ::croaring_sys;
 	};
 }
